@@ -786,6 +786,48 @@ impl<'a> Gen<'a> {
         } else {
             self.iterators.push(own);
         }
+        // consume it right away through a randomly chosen operator (every call path must bind the
+        // iterator's own name)
+        let consumer = self.fresh_name("v");
+        let it = Expr::Var(name.clone());
+        let (expr, ty) = match self.tape.below(6) {
+            0 => (Expr::Post("$]", Box::new(it)), Ty::arr(Ty::Int)),
+            1 => (Expr::Post("$+", Box::new(it)), Ty::Int),
+            2 => (
+                Expr::Reduce(
+                    Box::new(it),
+                    Box::new(Expr::Int(0)),
+                    Box::new(Expr::Lambda(
+                        vec![("p0".into(), Ty::Int), ("p1".into(), Ty::Int)],
+                        Ty::Int,
+                        vec![Stmt::Return(Some(Box::new(Stmt::Expr(Expr::Bin("+", Box::new(Expr::Bin("*", Box::new(Expr::Var("p0".into())), Box::new(Expr::Int(10)))), Box::new(Expr::Var("p1".into())))))))],
+                    )),
+                ),
+                Ty::Int,
+            ),
+            3 => (
+                Expr::Partition(
+                    Box::new(it),
+                    Box::new(Expr::Lambda(vec![("p0".into(), Ty::Int)], Ty::Bool, vec![Stmt::Return(Some(Box::new(Stmt::Expr(Expr::Bin(">", Box::new(Expr::Var("p0".into())), Box::new(Expr::Int(1)))))))])),
+                ),
+                Ty::Tup(vec![Ty::arr(Ty::Int), Ty::arr(Ty::Int)]),
+            ),
+            4 => (Expr::Post("$]", Box::new(Expr::TypeFilter(Box::new(it), Ty::Int))), Ty::arr(Ty::Int)),
+            _ => (
+                Expr::Post(
+                    "$]",
+                    Box::new(Expr::Map(
+                        Box::new(it),
+                        Box::new(Expr::Lambda(vec![("p0".into(), Ty::Int)], Ty::Int, vec![Stmt::Return(Some(Box::new(Stmt::Expr(Expr::Bin("+", Box::new(Expr::Var("p0".into())), Box::new(Expr::Int(1)))))))])),
+                    )),
+                ),
+                Ty::arr(Ty::Int),
+            ),
+        };
+        if self.tape.chance(2, 3) {
+            out.push(Stmt::Let(consumer.clone(), Box::new(Stmt::Expr(expr))));
+            self.declare(&consumer, ty);
+        }
         out
     }
 
